@@ -11,6 +11,7 @@ import (
 	"os"
 	"sort"
 	"sync"
+	"time"
 
 	"github.com/syndtr/goleveldb/leveldb/storage"
 
@@ -106,6 +107,8 @@ type Stor struct {
 	// Before, when set, is called before every mutating operation is applied (with mu held): the
 	// place to take crash images.
 	Before func(s *Stor, op Op)
+	// Delay, when set, is asked (outside the lock) how many milliseconds to stall an operation.
+	Delay func(k Kind, fd storage.FileDesc) int
 	// LogLines collects storage.Log lines when non-nil.
 	LogLines *[]string
 }
@@ -305,6 +308,11 @@ func (w *writer) Close() error {
 }
 
 func (s *Stor) Create(fd storage.FileDesc) (storage.Writer, error) {
+	if d := s.Delay; d != nil {
+		if ms := d(OpCreate, fd); ms > 0 {
+			time.Sleep(time.Duration(ms) * time.Millisecond)
+		}
+	}
 	s.mu.Lock()
 	defer s.mu.Unlock()
 	_, m := s.pre(OpCreate, fd, 0)
@@ -410,7 +418,11 @@ func (s *Stor) Files() []storage.FileDesc {
 	return fds
 }
 
-func (s *Stor) Meta() (storage.FileDesc, bool) { s.mu.Lock(); defer s.mu.Unlock(); return s.meta, s.hasMeta }
+func (s *Stor) Meta() (storage.FileDesc, bool) {
+	s.mu.Lock()
+	defer s.mu.Unlock()
+	return s.meta, s.hasMeta
+}
 
 // TotalBytes is the space currently used.
 func (s *Stor) TotalBytes() int {
